@@ -216,9 +216,13 @@ def exact_stats(vals):
     return out
 
 
-def close(a, b, tol=1e-9):
-    a, b = float(a), float(b)
-    return abs(a - b) <= tol * max(1.0, abs(a), abs(b))
+EPS = 2.220446049250313e-16
+
+
+def close(a, b, scale):
+    """floating-point results may differ from the exact value by the rounding error of the one-pass formulas, which is
+    proportional to the magnitude of the intermediate sums (scale), not to the result"""
+    return abs(float(a) - float(b)) <= 256 * EPS * float(scale) + 1e-300
 
 
 def real_stats(items_vals):
@@ -237,19 +241,24 @@ def replay_real(cex):
     except Exception as e:
         return False, 'statistics raised %s: %s for items %r' % (type(e).__name__, e, items)
     ex = exact_stats(vals)
-    for k in ('count', 'total', 'mean', 'variance-n', 'min', 'max'):
-        if not close(got[k], ex[k]):
-            return False, '%s-x = %r, exact value %s, items %r' % (k, got[k], ex[k], items)
+    n = len(vals)
+    s1 = sum(abs(float(v)) for v in vals) or 1e-300           # magnitude of the running sum
+    s2 = sum(float(v) * float(v) for v in vals) / n or 1e-300  # magnitude of sumsq / n (cancellation scale of the variance)
+    if got['count'] != ex['count'] or float(got['min']) != float(ex['min']) or float(got['max']) != float(ex['max']):
+        return False, 'count/min/max = %r/%r/%r, exact %s/%s/%s, items %r' % (got['count'], got['min'], got['max'], ex['count'], ex['min'], ex['max'], items)
+    for k, scale in (('total', s1), ('mean', s1 / n), ('variance-n', s2)):
+        if not close(got[k], ex[k], scale):
+            return False, '%s-x = %r, exact value %s (beyond the rounding error of the formula), items %r' % (k, got[k], float(ex[k]), items)
     if ex['variance'] is None:
         if got['variance'] != '':
             return False, 'variance-x = %r for a single value' % (got['variance'],)
     else:
-        if not close(got['variance'], ex['variance']):
-            return False, 'variance-x = %r, exact %s' % (got['variance'], ex['variance'])
-        if not close(float(got['standard-deviation']) ** 2, ex['variance'], 1e-6):
-            return False, 'standard-deviation-x = %r' % (got['standard-deviation'],)
-    if not close(float(got['standard-deviation-n']) ** 2, ex['variance-n'], 1e-6):
-        return False, 'standard-deviation-n-x = %r' % (got['standard-deviation-n'],)
+        if not close(got['variance'], ex['variance'], s2 * n / (n - 1)):
+            return False, 'variance-x = %r, exact %s, items %r' % (got['variance'], float(ex['variance']), items)
+        if not close(float(got['standard-deviation']) ** 2, got['variance'], abs(float(got['variance'])) + 1e-300):
+            return False, 'standard-deviation-x = %r is not the root of variance-x = %r' % (got['standard-deviation'], got['variance'])
+    if not close(float(got['standard-deviation-n']) ** 2, got['variance-n'], abs(float(got['variance-n'])) + 1e-300):
+        return False, 'standard-deviation-n-x = %r is not the root of variance-n-x = %r' % (got['standard-deviation-n'], got['variance-n'])
     m = got['median']
     if not (float(ex['median_lo']) <= float(m) <= float(ex['median_hi'])):
         return False, 'median-x = %r is not between the middle values %s and %s of %r' % (m, ex['median_lo'], ex['median_hi'], items)
